@@ -54,6 +54,8 @@ def run_oracles(prog, meta, sessions):
     completed = set()       # tasks that currently have a cached output (XE seen, no XS since)
     had_abort = False
     latest_ops = {}
+    prev_nodes = {}
+    task_out = {}
     wf = prog.kind == 'wf'
     for si, s in enumerate(sessions):
         ab = aborted(s)
@@ -76,7 +78,8 @@ def run_oracles(prog, meta, sessions):
                     out.append((prop, 'wf-abort ' + k, '%s: well-formed program aborted with %s (no violation exists in any state)' % (where, k)))
                 elif prog.kind == 'roles' and s.fresh_all is not None:
                     if all('abort' not in x for x in s.fresh_all):
-                        out.append(('C20', 'spurious-' + k, '%s: incremental build aborted with %s but from-scratch builds of all known tasks (two orders) in the current state succeed' % (where, k)))
+                        suffix, why = stale_owner_status(s, k, prev_nodes)
+                        out.append(('C20', 'spurious-' + k + suffix, '%s: incremental build aborted with %s but from-scratch builds of all known tasks (two orders) in the current state succeed%s' % (where, k, why)))
 
         # ---- C01 / C19: incremental == from scratch
         if q_only and not ab and s.fresh_ops is not None and prog.kind in ('wf', 'multi'):
@@ -109,7 +112,10 @@ def run_oracles(prog, meta, sessions):
         if s.step in meta.get('probe_steps', {}) and not ab and not had_abort and wf:
             stale = sorted(t for t in counts if t in completed)
             mixed = meta.get('mode') == 'mixed'
-            if stale:
+            if prog.uses_failing:
+                if stale and not s.errs and not mixed:
+                    out.append(('C18', 'stale-after-erring-bottom-up', '%s: after a bottom-up build during which checkers failed, task(s) %r were left stale (reused although a dependency check failed or was skipped)' % (where, stale)))
+            elif stale:
                 out.append(('C03', 'stale-after-bottom-up' + ('-mixed' if mixed else ''), '%s: after the bottom-up build, requiring known task(s) %r executed them (they were not up to date)' % (where, stale)))
             elif s.fresh_ops is not None and all('abort' not in o for o in s.fresh_ops) and s.ops != s.fresh_ops:
                 d = next((a, b) for a, b in zip(s.ops, s.fresh_ops) if a != b)
@@ -218,6 +224,18 @@ def run_oracles(prog, meta, sessions):
                     if es is not None and es != st:
                         out.append(('C09', 'stamp-differs', '%s: task %d dependency %s%s recorded stamp %s but the stamp taken at creation was %s' % (where, t, k, tgt, st, es)))
 
+        # ---- C09: the verdict of a task-dependency check is the output checker's verdict on the stored stamp
+        for e in s.events:
+            f = e.split()
+            if f[0] == 'XE':
+                task_out[int(f[1])] = int(f[2])
+            elif f[0] == 'CTE' and int(f[1]) in task_out:
+                c, st, inc = int(f[2]), int(f[3]), f[4] == '1'
+                o = task_out[int(f[1])]
+                exp = (o != st) if c == 0 else ((o % 2) != st if c == 1 else False)
+                if exp != inc:
+                    out.append(('C09', 'check-task-verdict', '%s: require dependency on task %s (checker %d, stamp %d) was reported %s although its output is %d' % (where, f[1], c, st, 'inconsistent' if inc else 'consistent', o)))
+
         # ---- C17
         msg = P.nesting_check(s.events, ab)
         if msg:
@@ -250,6 +268,7 @@ def run_oracles(prog, meta, sessions):
         if ev_errs != s.errs:
             out.append(('C18', 'errors-not-reported', '%s: checkers returned errors %r during validation, the session reports %r' % (where, ev_errs, s.errs)))
 
+        prev_nodes = nodes
         for e in s.events:
             f = e.split()
             if f[0] == 'XS': completed.discard(int(f[1]))
@@ -309,3 +328,35 @@ def top_level_require_ends(events):
         elif f[0] == 'BS':
             depth = 0
     return res
+
+
+def stale_owner_status(s, kind, prev_nodes):
+    """for a spurious abort: was the owner of the recorded (stale) dependency that triggered it already visited (validated or
+    being validated) in this session?  The recorded findings O5a-c are the cases where it was NOT."""
+    visited = set()
+    open_req = []
+    for e in s.events:
+        f = e.split()
+        if f[0] in ('RS', 'CTS', 'XS'): visited.add('T' + f[1])
+        if f[0] == 'RS': open_req.append('T' + f[1])
+        elif f[0] == 'RE' and open_req: open_req.pop()
+        elif f[0] == 'BS': open_req = []
+    last = s.events[-1].split() if s.events else ['?']
+    if kind == 'cycle' and last[0] == 'RS':
+        tgt = 'T' + last[1]
+        if tgt in open_req[:-1]:
+            return '-target-being-validated', ' (the required task %s is itself being validated in this build)' % tgt
+        if tgt in [v for v in visited if v != tgt] and False:
+            return '', ''
+        # target reached for the first time in this session?
+        first = sum(1 for e in s.events if e.split()[0] in ('RS', 'CTS') and 'T' + e.split()[1] == tgt) == 1
+        return ('', '') if first else ('-owner-visited', ' (the owner of the stale edge was already validated in this session)')
+    if kind in ('overlap', 'hidden') and last[0] in ('wS', 'rS'):
+        r = 'R' + last[1]
+        nd = prev_nodes.get(r, {'ins': []})
+        owners = [src for (k, src) in nd['ins'] if k in (('W',) if kind == 'overlap' else ('W', 'R'))]
+        vis = [o for o in owners if o in visited]
+        if owners and len(vis) == len(owners):
+            return '-owner-visited', ' (every task holding a recorded dependency on %s was already validated in this session)' % r
+        return '', ''
+    return '', ''
